@@ -270,6 +270,72 @@ Section Connects.
     { inversion G; subst. inversion Dn; subst. destruct H1 as [(T & _)|(_ & _ & _ & S)]; [congruence|exact S]. }
     repeat split; auto. rewrite Forall_forall in *. intros z Hz. destruct (G z Hz) as [(T & _)|(_ & D' & _)]; [rewrite (Dn z Hz) in T; discriminate|exact D'].
   Qed.
+
+  (* ---- progress: without the lock every turn of an unfinished connect moves it strictly closer to the end ---- *)
+  Definition rank (x : sess) : nat :=
+    match todo x with [] => 0 | _ => 8 - pc x end%nat.
+
+  Lemma turn_rank e x : good e x -> let '(_, x', _) := turn e x in (rank x' < rank x)%nat \/ (rank x = 0 /\ rank x' = 0)%nat.
+  Proof.
+    intros [(T & Dn & R)|(T & Dn & H1 & H2)].
+    - destruct x as [td p la dn]. cbn in T, Dn, R. subst td dn.
+      destruct p as [|[|[|[|[|[|[|[|p]]]]]]]]; cbn in R; try contradiction; unfold turn, rank; cbn.
+      + destruct (has_db e d); cbn; left; lia.
+      + destruct (has_db e d); cbn; left; lia.
+      + rewrite R. cbn. left. lia.
+      + destruct (has_sch e d s); cbn; left; lia.
+      + rewrite R. cbn. left. lia.
+      + rewrite R. destruct (has_sch e d s); cbn; left; lia.
+      + destruct R as [R1 R2]. rewrite R2. cbn. left. lia.
+      + destruct R as [R1 R2]. rewrite R2. cbn. left. lia.
+    - destruct x as [td p la dn]. cbn in T. subst td. unfold turn, rank. cbn. right. split; reflexivity.
+  Qed.
+
+  Fixpoint occ (i : nat) (sch : list nat) : nat :=
+    match sch with [] => 0 | j :: r => (if Nat.eqb j i then 1 else 0) + occ i r end%nat.
+
+  Lemma progress_inv sch : forall st, Inv st ->
+    (forall i x, nth_error (snd st) i = Some x -> (rank x <= occ i sch)%nat) ->
+    forall i x, nth_error (snd (run_sched false sch st)) i = Some x -> rank x = 0%nat.
+  Proof.
+    unfold run_sched. induction sch as [|j sch IH]; intros st I B i x N.
+    - cbn in N. specialize (B i x N). cbn in B. lia.
+    - cbn [fold_left] in N. apply (IH (sched_step false st j)) with (i := i); [apply inv_sched_step; exact I| |exact N].
+      clear N i x. intros i x N. destruct st as [e ss]. unfold sched_step in N. cbn [snd] in B.
+      destruct (nth_error ss j) as [y|] eqn:Nj.
+      + cbn [andb] in N. destruct I as (G & _ & _).
+        assert (Gy : good e y) by (rewrite Forall_forall in G; apply G; eapply nth_error_In; eauto).
+        pose proof (turn_rank e y Gy) as TR. destruct (turn e y) as [[e' y'] c]. cbn [snd] in N.
+        destruct (Nat.eq_dec j i) as [->|Ne].
+        * rewrite nth_error_upd_same in N by (eapply nth_error_lt; eauto). injection N as <-.
+          specialize (B i y Nj). cbn [occ] in B. rewrite Nat.eqb_refl in B. cbn iota in B. destruct TR as [TR|[TR1 TR2]]; lia.
+        * rewrite nth_error_upd_other in N by exact Ne. specialize (B i x N). cbn [occ] in B.
+          assert (E : Nat.eqb j i = false) by (apply Nat.eqb_neq; exact Ne). rewrite E in B. cbn iota in B. lia.
+      + cbn [snd] in N. destruct (Nat.eq_dec j i) as [->|Ne]; [congruence|].
+        specialize (B i x N). cbn [occ] in B.
+        assert (E : Nat.eqb j i = false) by (apply Nat.eqb_neq; exact Ne). rewrite E in B. cbn iota in B. lia.
+  Qed.
+
+  (* every schedule (without the lock) that gives each of the n sessions at least 8 turns finishes every connect *)
+  Theorem connects_terminate_l : forall n sch, (forall i, (i < n)%nat -> (8 <= occ i sch)%nat) ->
+    all_done (snd (run_sched false sch (e0, map mk_sess (repeat [cop] n)))) = true.
+  Proof.
+    intros n sch H. unfold all_done. apply forallb_forall. intros x Hx.
+    apply In_nth_error in Hx. destruct Hx as [i Ni].
+    assert (R : rank x = 0%nat).
+    { apply (progress_inv sch (e0, map mk_sess (repeat [cop] n)) (inv_init n)) with (i := i); [|exact Ni].
+      intros k y Nk. cbn [snd] in Nk. pose proof (nth_error_lt _ _ _ Nk) as Lk. rewrite map_length, repeat_length in Lk.
+      apply nth_error_In in Nk. apply in_map_iff in Nk. destruct Nk as (o & <- & Ho). apply repeat_spec in Ho. subst o.
+      unfold rank. cbn. apply (H k Lk). }
+    unfold rank in R. destruct (todo x) as [|o r] eqn:T; [reflexivity|].
+    (* a session with work left and rank 0 would sit at pc >= 8, which `good` excludes *)
+    exfalso. pose proof (connects_all_succeed_l false n sch) as C.
+    destruct (run_sched false sch (e0, map mk_sess (repeat [cop] n))) as [e ss]. destruct C as [G _]. cbn [snd] in Ni.
+    rewrite Forall_forall in G. apply nth_error_In in Ni. specialize (G x Ni).
+    destruct G as [(T' & _ & Rq)|(T' & _)]; [|congruence].
+    assert (P : (8 <= pc x)%nat) by lia. unfold req in Rq.
+    destruct (pc x) as [|[|[|[|[|[|[|[|p]]]]]]]]; try lia; exact Rq.
+  Qed.
 End Connects.
 
 (* ------------------------------------------------------------------ progress: a connect finishes within ten of its own turns *)
